@@ -543,6 +543,23 @@ func runC02(p *Program, r *Result) {
 
 	// ---- R02.8: reordering, dropping or duplicating chunks is caught because every position has
 	// its own nonce: the counter must really count (shared with C05/C06)
+	r.Rule("R02.9", "what Decrypt hands out is the STREAM reader itself: no wrapper between the caller and internal/stream.Reader (a wrapper that forgets the reader after an error turns the next Read into a clean end of stream)", 1)
+	if dec := r.anchor(pkgAge, "", "Decrypt"); dec != nil {
+		dtb := p.TB(dec)
+		n := 0
+		for _, vr := range virtualReturns(dec) {
+			if len(vr.Results) != 2 || isNilConst(vr.Results[0]) {
+				continue
+			}
+			n++
+			t := short(dtb.Term(vr.Results[0]).String())
+			direct := strings.HasPrefix(t, "stream.NewReader(") && strings.HasSuffix(t, ").0")
+			r.Check(direct, dec.String(), "reader:direct#"+itoa(n), r.pos(vr.Ret), "the result is stream.NewReader's", "Decrypt returns "+t+" instead of the reader made by stream.NewReader: whether a failed stream keeps failing, and whether its end is authenticated, is then up to the wrapper")
+		}
+		if n == 0 {
+			r.Unk(dec.String(), "reader:direct", "", "no return with a reader found")
+		}
+	}
 	r.Rule("R02.8", "chunk positions have distinct nonces: 11-byte big-endian counter with carry, flag in the last byte (= R05.stream-nonce)", 3)
 	checkNonceLayout(p, r)
 }
